@@ -75,6 +75,15 @@ def make_case(ctx, rng, cid, window_prob=0.3):
         if nulls and rng.random() < 0.3:
             recs.append((fsgen.null_record(lay), None))
         rec, vals = fsgen.make_record(lay, i, sec, usec=usec, full_width=full, rng=rng)
+        if not full and rng.random() < 0.15:
+            # bytes above 0x7f in a string field (a UTF-8 or Latin-1 user / host / command name)
+            strf = [f.name for f in lay.fields if f.kind == "str" and f.size >= 8 and f.name in vals]
+            if strf:
+                fn_ = rng.choice(strf)
+                nv = rng.choice(["jörg".encode(), "müller".encode(), b"caf\xe9", "日本".encode(), b"\xff\xfe", "ñ".encode() + b"1"])
+                if len(nv) < lay.by_name[fn_].size:
+                    vals = dict(vals, **{fn_: nv})
+                    rec = fsgen.pack(lay, vals)
         if "ut_addr_v6" in vals and rng.random() < 0.5:
             # remote address patterns: IPv4 (words 1..3 zero), IPv6 with zero runs in every position (::1, fe80::1, 2001:db8::N, ...)
             w = [rng.choice([0, 0, 1, 0x0db80120, 0xfe800000, rng.getrandbits(32)]) for _ in range(4)]
